@@ -207,7 +207,7 @@ fn strategy(tier: Tier) -> BoxedStrategy<Case> {
     (
         prop_oneof![
             3 => wire::responses(4, 300, 300),
-            2 => wire::responses(6, max_payload, tier.pick(6_000, 20_000)),
+            1 => wire::responses(6, max_payload, tier.pick(5_000, 20_000)),
         ],
         prop::option::weighted(0.5, corruption()),
         prop::collection::vec(seg_strategy(9000), 4),
@@ -224,10 +224,10 @@ pub fn property(tier: Tier) -> Property {
         parts: vec![Box::new(RandomPart {
             name: "segmentation",
             rule: "proptest: stream = 1-6 encoded responses (small, or with payloads/values beyond 4 KiB and its doublings), with probability 1/2 one corruption (truncate / flip / insert / delete / splice an edge line); run under whole, one-byte and 4 generated segmentations (random cuts, fixed chunks, cuts at 4096/8192/16384 +-2) x {blocking, async, async+spurious pending}; streams <= 512 B (thorough 2048) additionally under every single cut point x {blocking, async}; all outcome sequences must equal blocking/whole. non-trivial = stream with >=2 responses, a payload or > 4096 B, under a segmentation cutting inside it; distinct by serialised case; 'executions' counts connection runs",
-            cases: (4_000, 100_000),
+            cases: (2_000, 100_000),
             strategy: Box::new(strategy),
             check: Box::new(move |c| check_with(c, limit)),
-        })],
+        }), crate::fuzzops::corpus_part("fuzz_corpus", "fz_stream", "C02", crate::fuzzops::stream_target)],
         assumptions: vec!["outcomes are compared through public accessors (frames, fields, binary, error fields, terminal outcome)"],
         selftest: None,
     }
